@@ -47,10 +47,10 @@ SentOK(pl) == \/ Rec.sent = Concrete(out', pl)
               \/ (out'.may /\ Rec.sent = <<>>)
 
 TLogin == /\ IsEvent("Login") /\ Login(Rec.s)
-          /\ Chk("Login.state", ProjOK(Rec.proj)) /\ Chk("Login.sent", Rec.sent = <<>>)
+          /\ Chk("Login.state env Login " \o ToString(Rec.i), ProjOK(Rec.proj)) /\ Chk("Login.sent env Login " \o ToString(Rec.i), Rec.sent = <<>>)
           /\ UNCHANGED <<tid, addr>>
 TReg == /\ IsEvent("Reg") /\ AddRegion(Rec.s, Rec.h)
-        /\ Chk("Reg.state", ProjOK(Rec.proj)) /\ Chk("Reg.sent", Rec.sent = <<>>)
+        /\ Chk("Reg.state env Reg " \o ToString(Rec.i), ProjOK(Rec.proj)) /\ Chk("Reg.sent env Reg " \o ToString(Rec.i), Rec.sent = <<>>)
         /\ UNCHANGED <<tid, addr>>
 \* label: the message name the driver used, i: index of the event in its trace (only quoted in failure names)
 \* {"ev":"C","a":a,"src":{ip,port},"data":[..],"k":kind,"s":s,"label":name,"sent":[{"via":a,"data":[..],"to":{ip,port}}..],"proj":{..}}
@@ -63,7 +63,7 @@ TClient == /\ IsEvent("C")
                  /\ Env("C.label/kind", Rec.k \in CKinds)
                  \* the two choices the property leaves open are read off the observed public state
                  /\ Client(Rec.a, h, Rec.k, Rec.s,
-                           \/ (Rec.k = "kill" /\ IsOpen(Rec.a, h) /\ Rec.proj.circ[sess[Rec.a]][h] # "open")
+                           \/ (Rec.k \in Kill /\ IsOpen(Rec.a, h) /\ Rec.proj.circ[sess[Rec.a]][h] # "open")
                            \/ (Rec.k = "ucc" /\ CanClaim(Rec.a, Rec.s) /\ h \notin regs[Rec.s] /\ Rec.proj.sess[Rec.a] = Rec.s))
                  /\ Chk("C.sent " \o Rec.k \o " " \o Rec.label \o " " \o ToString(Rec.i), SentOK(r.data))
                  /\ Chk("C.state " \o Rec.k \o " " \o Rec.label \o " " \o ToString(Rec.i), ProjOK(Rec.proj))
@@ -75,7 +75,7 @@ THost == /\ IsEvent("H")
          /\ Env("H.spoof comes from a foreign IP", Rec.k = "spoof" => Rec.src.ip # addr.clients[Rec.a].ip)
          /\ Env("H.spoof is a SOCKS request", Rec.k = "spoof" => SocksStrip(Rec.data).ok)
          /\ LET h == HostOf(Rec.src.ip, Rec.src.port)
-            IN Host(Rec.a, h, Rec.k, Rec.s, Rec.k = "kill" /\ IsOpen(Rec.a, h) /\ Rec.proj.circ[sess[Rec.a]][h] # "open")
+            IN Host(Rec.a, h, Rec.k, Rec.s, Rec.k \in Kill /\ IsOpen(Rec.a, h) /\ Rec.proj.circ[sess[Rec.a]][h] # "open")
          /\ Chk("H.sent " \o Rec.k \o " " \o Rec.label \o " " \o ToString(Rec.i), SentOK(Rec.data))
          /\ Chk("H.state " \o Rec.k \o " " \o Rec.label \o " " \o ToString(Rec.i), ProjOK(Rec.proj))
          /\ UNCHANGED <<tid, addr>>
